@@ -714,7 +714,7 @@ def run_fromjson(case, drv):
                     res.fail(f'NF model: loaded {tdef} entry gives NF {float(got[0])}, its model gives {exp_nf + float(ripple[0])}')
             except EquipmentConfigError as ex:
                 res.fail(f'NF model: entry loaded with the {td or "default variable_gain"} NF model cannot be '
-                         f'used: {ex}', cls='entry-without-type_def-unusable' if td is None else 'unlisted')
+                         f'used: {ex}')
     res.nontrivial = True
     res.stats.update({'fromjson_cases': 1, f'fromjson_{impl[0]}_{impl[1]}': 1})
     return res
